@@ -42,7 +42,7 @@ UNIVERSE = ['c12.f.x', 'c12.f.y', 'c12.f.z']
 
 
 def bound(tier):
-  return 'depth<=%d over %d operations' % (5 if tier == 'quick' else 7, len(OPS))
+  return 'depth<=%d over %d operations' % (6 if tier == 'quick' else 8, len(OPS))
 
 
 def _hook(kind):
@@ -328,7 +328,7 @@ class World:
 def run(ctx):
   res = core.Result()
   res.extra['alphabet'] = OPS
-  bfs.run_bfs(ctx, __import__('checks.c12', fromlist=['x']), 5 if ctx.quick else 7, res,
+  bfs.run_bfs(ctx, __import__('checks.c12', fromlist=['x']), 6 if ctx.quick else 8, res,
               max_states=60000 if ctx.quick else 600000)
   return res
 
